@@ -623,14 +623,18 @@ func (s *Store) rollback(ns walletdb.ReadWriteBucket, height int32) error {
 			if blockchain.IsCoinBaseTx(&rec.MsgTx) {
 				op := wire.OutPoint{Hash: rec.Hash}
 				for i, output := range rec.MsgTx.TxOut {
+					// Every output of the coinbase is
+					// gone, not only the wallet's own:
+					// a transaction spending any of them
+					// is removed below.
+					op.Index = uint32(i)
+					coinBaseCredits = append(coinBaseCredits, op)
+
 					k, v := existsCredit(ns, &rec.Hash,
 						uint32(i), &b.Block)
 					if v == nil {
 						continue
 					}
-					op.Index = uint32(i)
-
-					coinBaseCredits = append(coinBaseCredits, op)
 
 					unspentKey, credKey := existsUnspent(ns, &op)
 					if credKey != nil {
